@@ -301,6 +301,10 @@ def parse_output(out):
             vals = [float(x) for x in p[2:-1]]
             cur["params"].setdefault(p[1], []).append(
                 [complex(vals[i], vals[i + 1]) for i in range(0, len(vals), 2)])
+        elif p[0] == "paramat":
+            vals = [float(x) for x in p[2:-1]]
+            cur.setdefault("paramat", {}).setdefault(p[1], []).append(
+                [complex(vals[i], vals[i + 1]) for i in range(0, len(vals), 2)])
         elif p[0] == "apply":
             d = dict(x.split("=", 1) for x in p[1:])
             d["rc"] = int(d["rc"])
